@@ -112,6 +112,8 @@ pub(crate) fn append_message_record_best_effort_v1(path: &Path, seq: u64, id: &s
         if write_header_v1(&mut file).is_err() {
             return;
         }
+        #[cfg(rip_verif)]
+        rip_kernel::verif::point("ordidx.header");
     } else if len < HEADER_SIZE_V1 || validate_header_v1(&mut file).is_err() {
         return;
     }
@@ -170,6 +172,8 @@ pub(crate) fn rebuild_message_ordinal_index_from_events_v1(
 fn write_header_v1(file: &mut File) -> io::Result<()> {
     file.seek(SeekFrom::Start(0))?;
     file.write_all(MAGIC_V1)?;
+    #[cfg(rip_verif)]
+    rip_kernel::verif::point("ordidx.magic");
     file.write_all(&VERSION_V1.to_le_bytes())?;
     file.write_all(&(RECORD_SIZE_V1 as u32).to_le_bytes())?;
     file.write_all(&[0u8; (HEADER_SIZE_V1 as usize).saturating_sub(8 + 4 + 4)])?;
